@@ -247,3 +247,55 @@ Proof.
     assert (0 < 2 ^ k) by (apply N.neq_0_lt_0, N.pow_nonzero; discriminate). nia. }
   unfold shr. destruct (s <? 64); [intros [= <-]; apply H|]. destruct (dbg c); [discriminate|]. intros [= <-]. apply H.
 Qed.
+
+(* ---------------------------------------------------------------------------------------------
+   added for Proofs/LoopsTieSeq.v
+   --------------------------------------------------------------------------------------------- *)
+(* the same loop on two representations of the state (the generated tuple orders the variables alphabetically) and
+   of the exit value *)
+Definition step_conj {S1 S2 R1 R2} (phi : S1 -> S2) (f : R1 -> R2) (o : S1 + R1) : S2 + R2 :=
+  match o with inl s => inl (phi s) | inr r => inr (f r) end.
+
+Lemma loopN_conj {S1 S2 R1 R2} (phi : S1 -> S2) (f : R1 -> R2)
+    (step1 : S1 -> res (S1 + R1)) (step2 : S2 -> res (S2 + R2)) :
+  (forall s, step2 (phi s) = rmap (step_conj phi f) (step1 s)) ->
+  forall n s, loopN n step2 (phi s) = rmap f (loopN n step1 s).
+Proof.
+  intros H n. induction n as [|n IH] using N.peano_ind; intro s; [reflexivity|].
+  rewrite !loopN_step by lia. rewrite H. replace (N.succ n - 1) with n by lia.
+  destruct (step1 s) as [[s'|r]|]; cbn [rmap step_conj bind]; auto.
+Qed.
+
+Lemma iter_fuel_mono {S R} (step : S -> res (S + R)) r : forall f g s,
+  iter_fuel f step s = Ok r -> (f <= g)%nat -> iter_fuel g step s = Ok r.
+Proof.
+  induction f as [|f IH]; intros g s E Hg; [discriminate|].
+  destruct g as [|g]; [lia|]. cbn [iter_fuel] in *.
+  destruct (step s) as [[s'|v]|]; cbn [bind] in *; [apply IH; [exact E | lia] | exact E | discriminate].
+Qed.
+
+(* a model loop on fuel that returned a value, against `loopN m` when some measure bounds the number of iterations *)
+Lemma loopN_of_iter_fuel {S R} (step : S -> res (S + R)) (P : nat -> S -> Prop) :
+  (forall s s', P 0%nat s -> step s = Ok (inl s') -> False) ->
+  (forall n s s', P (Datatypes.S n) s -> step s = Ok (inl s') -> P n s') ->
+  forall n s fuel m r, P n s -> N.of_nat n < m -> iter_fuel fuel step s = Ok r -> loopN m step s = Ok r.
+Proof.
+  intros H0 HS n s fuel m r HP Hm E.
+  rewrite (loopN_fuel step P H0 HS n s (Nat.max fuel (Datatypes.S n)) m HP) by lia.
+  apply (iter_fuel_mono step r fuel); [exact E | lia].
+Qed.
+
+(* a model loop on fuel that returned a value, against `loopN m` with m at least the fuel *)
+Lemma loopN_of_iter_fuel_le {S R} (step : S -> res (S + R)) r : forall fuel s m,
+  iter_fuel fuel step s = Ok r -> N.of_nat fuel <= m -> loopN m step s = Ok r.
+Proof.
+  induction fuel as [|f IH]; intros s m E Hm; [discriminate|].
+  rewrite loopN_step by lia. cbn [iter_fuel] in E.
+  destruct (step s) as [[s'|v]|]; cbn [bind] in E; [apply IH; [exact E | lia] | exact E | discriminate].
+Qed.
+
+Lemma rmap_rmap {A B C} (f : A -> B) (g : B -> C) (m : res A) : rmap g (rmap f m) = rmap (fun a => g (f a)) m.
+Proof. destruct m; reflexivity. Qed.
+
+Lemma rmap_id {A} (m : res A) : rmap (fun a => a) m = m.
+Proof. destruct m; reflexivity. Qed.
